@@ -42,13 +42,39 @@ var (
 	c08Docs    [][]byte
 	c08SenDocs [][]byte
 	c08Once    bool
+	c08Keeper  *alt.Recomposer
 )
+
+type keeper struct {
+	N     int
+	Props map[string]any
+}
 
 func c08Fixtures() {
 	if c08Once {
 		return
 	}
 	c08Once = true
+	c08Shared()
+	c08Opts = []*ojg.Options{
+		{Sort: true}, {Sort: true, Indent: 2}, {Sort: true, OmitNil: true, OmitEmpty: true}, {Sort: true, UseTags: true}, {Sort: true, KeyExact: true, Indent: 1},
+		{Sort: true, NestEmbed: true, OmitEmpty: true}, {Sort: true, Tab: true, UseTags: true, OmitNil: true},
+		{Sort: true, CreateKey: "type"}, {Sort: true, CreateKey: "^", FullTypePath: true}, {Sort: true, CreateKey: "type", FullTypePath: true, OmitNil: true, KeyExact: true},
+		{Sort: true, BytesAs: ojg.BytesAsBase64, TimeFormat: "nano"}, {Sort: true, TimeMap: true, CreateKey: "type"},
+	}
+	c08Docs = [][]byte{
+		[]byte(`{"a":1,"b":[1,2,3],"c":{"d":2,"e":[{"x":"y"},{"x":"z","d":5}]}}`), []byte(`[1,2.5,"s",null,true,{"k":[]}]`), []byte(`{"a":{"d":1},"c":[{"d":3},{"d":0}]}`),
+		[]byte(`"just a string"`), []byte(`123456789012345678901234567890`), []byte(`{"a":`), []byte(`[1,2`), []byte(`{"s":"é\né\\","t":[[],[[]],{}]}`), []byte(`1 2 3`), []byte(``),
+	}
+	c08SenDocs = [][]byte{[]byte(`{a:1 b:[1 2 3] c:{d:2}}`), []byte(`[a b "c d" 'e']`), []byte(`{a:`), []byte(`[1 2 // c
+ 3]`)}
+}
+
+// c08Shared builds the objects the tasks share (paths, scripts, a recomposer) anew. It is part of every
+// restart of the world: an object that finishes initialising itself lazily on first use (normalising a
+// constant, compiling a pattern, caching a plan) must meet its first uses concurrently, not in a warm-up.
+func c08Shared() {
+	c08Exprs, c08Scripts = c08Exprs[:0:0], c08Scripts[:0:0]
 	// the first six are plain paths (also used as Set targets), the rest exercise every filter feature
 	for _, s := range []string{"$.a", "$.b[1]", "$..d", "$.b[*]", "$['a','c']", "$.b[0:2]", "$.b[?(@ > 1)]", "$.c[?(@.d > 1)].d", "$.*", "$..[?(@.d)]", "$.b[-1]", "$.c.e[?(@.x == 'y')]", "$.c[?(length(@) > 0)]",
 		"$.c.e[?(@.x =~ 'y|q')]", "$..[?(search(@.x, 'z'))]", "$.b[?(@ in [1,3])]", "$.c.e[?(@.x ~= /^[yz]$/)]", "$.c.e[?(match(@.x, '.'))]", "$.c.e[?(@.d exists true)]", "$.b[?(@ + 1 > 2)]", "$.c.e[?(@.x =~ 'z')].d", "$.c.e[?(count(@.*) > 1)]"} {
@@ -59,26 +85,42 @@ func c08Fixtures() {
 		"(@.d * 2 - 1 >= 3)", "(@.d / 2 < 1)", "(!(@.d == 2))", "(@.x has true)", "(@.zz exists false)", "(@.arr empty false)", "(@.d != 2 && @.x != 'q')", "(@.d <= 2)", "(@.s =~ '^s')", "(match(@.x, 'y'))"} {
 		c08Scripts = append(c08Scripts, jp.MustNewScript(s))
 	}
-	c08Opts = []*ojg.Options{
-		{Sort: true}, {Sort: true, Indent: 2}, {Sort: true, OmitNil: true, OmitEmpty: true}, {Sort: true, UseTags: true}, {Sort: true, KeyExact: true, Indent: 1},
-		{Sort: true, NestEmbed: true, OmitEmpty: true}, {Sort: true, Tab: true, UseTags: true, OmitNil: true},
+	// scripts built through the Equation API keep the caller's raw constants (int, []any{1,2,3}, ...)
+	x := jp.A().C("d")
+	for _, eq := range []*jp.Equation{
+		jp.In(jp.Get(x), jp.ConstList([]any{1, 2, 3})),
+		jp.In(jp.Get(jp.A().C("x")), jp.ConstList([]any{"y", "q", 7, 2.5, true, nil})),
+		jp.Eq(jp.Get(x), jp.ConstInt(2)),
+		jp.Or(jp.Lt(jp.Get(x), jp.ConstInt(1)), jp.Gt(jp.Get(x), jp.ConstInt(2))),
+		jp.And(jp.Has(jp.Get(jp.A().C("x")), jp.ConstBool(true)), jp.Regex(jp.Get(jp.A().C("s")), jp.ConstString("st."))),
+		jp.Eq(jp.Length(jp.A().C("s")), jp.ConstInt(3)),
+		jp.In(jp.ConstInt(2), jp.Get(jp.A().C("arr"))),
+	} {
+		c08Scripts = append(c08Scripts, eq.Script())
+		c08Exprs = append(c08Exprs, jp.R().C("c").C("e").Filter(eq))
 	}
-	c08Docs = [][]byte{
-		[]byte(`{"a":1,"b":[1,2,3],"c":{"d":2,"e":[{"x":"y"},{"x":"z","d":5}]}}`), []byte(`[1,2.5,"s",null,true,{"k":[]}]`), []byte(`{"a":{"d":1},"c":[{"d":3},{"d":0}]}`),
-		[]byte(`"just a string"`), []byte(`123456789012345678901234567890`), []byte(`{"a":`), []byte(`[1,2`), []byte(`{"s":"é\né\\","t":[[],[[]],{}]}`), []byte(`1 2 3`), []byte(``),
-	}
-	c08SenDocs = [][]byte{[]byte(`{a:1 b:[1 2 3] c:{d:2}}`), []byte(`[a b "c d" 'e']`), []byte(`{a:`), []byte(`[1 2 // c
- 3]`)}
+	// a recomposer with a composer function that keeps the map it is handed (as user code may)
+	c08Keeper = alt.MustNewRecomposer("", map[any]alt.RecomposeFunc{&keeper{}: func(m map[string]any) (any, error) {
+		k := &keeper{}
+		k.Props, _ = m["props"].(map[string]any)
+		if n, ok := m["n"].(int64); ok {
+			k.N = int(n)
+		} else if f, ok := m["n"].(float64); ok {
+			k.N = int(f)
+		}
+		return k, nil
+	}})
 }
 
 type op08 struct {
 	Fn   string
+	O    int // option-set index
 	A, B int // indexes into fixtures / small parameters
 	Val  any // private data for writer ops (created before the workers start, read-only afterwards)
 	Desc string
 }
 
-func (o *op08) String() string { return fmt.Sprintf("%s(%d,%d)%s", o.Fn, o.A, o.B, o.Desc) }
+func (o *op08) String() string { return fmt.Sprintf("%s(%d,%d,o%d)%s", o.Fn, o.A, o.B, o.O, o.Desc) }
 
 var c08Menu = []string{
 	"oj.Parse", "oj.ParseString", "oj.Load", "oj.Validate", "oj.Tokenize", "oj.Unmarshal",
@@ -90,7 +132,7 @@ var c08Menu = []string{
 	"oj.ValidateReader", "oj.TokenizeLoad", "oj.MatchLoad", "sen.Tokenize", "sen.Match", "sen.MatchLoad", "pretty.WriteJSON", "oj.MustParse", "sen.MustParse", "alt.Alter", "alt.Dup", "jp.String", "alt.Recompose(embedded)", "oj.Unmarshal(embedded)",
 	// aborted calls: the error paths run concurrently with everybody else's calls
 	"oj.Marshal(unencodable)", "oj.Marshal(failing Marshaler)", "oj.JSON(panicking Simplifier)", "oj.Write(failing writer)", "sen.Write(failing writer)",
-	"sen.String(panicking Simplifier)", "oj.Load(reader error)", "oj.Parse(panicking callback)", "oj.Tokenize(panicking handler)", "sen.Parse(panicking callback)", "oj.Marshal(failing TextMarshaler)", "sen.ParseReader(reader error)", "oj.Parse(callback)", "sen.Parse(callback)", "oj.Parse(empty)", "oj.JSON(big)", "sen.String(big)", "oj.Marshal(big)", "oj.Write(pooled, failing writer)", "sen.Write(pooled, failing writer)",
+	"sen.String(panicking Simplifier)", "oj.Load(reader error)", "oj.Parse(panicking callback)", "oj.Tokenize(panicking handler)", "sen.Parse(panicking callback)", "oj.Marshal(failing TextMarshaler)", "sen.ParseReader(reader error)", "oj.Parse(callback)", "sen.Parse(callback)", "oj.Parse(empty)", "oj.JSON(big)", "sen.String(big)", "oj.Marshal(big)", "oj.Unmarshal(invalid)", "sen.Unmarshal(invalid)", "oj.Parse(ints)", "alt.Generify(struct)", "alt.GenAlter(struct)", "alt.Alter(struct)", "sen.Unmarshal(keeper)", "oj.Unmarshal(keeper)", "oj.Write(pooled, failing writer)", "sen.Write(pooled, failing writer)",
 }
 
 type failingMarshaler struct{ N int }
@@ -140,17 +182,52 @@ func drawVal08(t *rapid.T) (any, string) {
 	return v, " " + name + "<" + strings.Join(sig, ",") + ">"
 }
 
-func drawOp08(t *rapid.T) *op08 {
-	o := &op08{Fn: c08Menu[sim.Intn(t, len(c08Menu), "fn")], A: sim.Intn(t, 16, "a"), B: sim.Intn(t, 16, "b")}
+// theme08 is the swarm configuration of one case: the operations and option sets its tasks draw from.
+// Many short runs that each concentrate on a few operations beat uniform draws from the whole menu: two
+// tasks must meet in the same operation (or the same option set) for most shared state to be touched twice.
+type theme08 struct {
+	fns  []string
+	opts []int
+	bs   []int // the few shared objects (paths, scripts) the tasks of this case concentrate on
+}
+
+func drawTheme08(t *rapid.T) *theme08 {
+	th := &theme08{}
+	if sim.Intn(t, 5, "uniform") == 4 {
+		th.fns = c08Menu
+	} else {
+		n := 1 + sim.Intn(t, 5, "nfns")
+		for i := 0; i < n; i++ {
+			th.fns = append(th.fns, c08Menu[sim.Intn(t, len(c08Menu), "themefn")])
+		}
+	}
+	n := 1 + sim.Intn(t, 3, "nopts")
+	for i := 0; i < n; i++ {
+		th.opts = append(th.opts, sim.Intn(t, len(c08Opts), "themeopt"))
+	}
+	n = 1 + sim.Intn(t, 3, "nbs")
+	for i := 0; i < n; i++ {
+		th.bs = append(th.bs, sim.Intn(t, 64, "themeb"))
+	}
+	return th
+}
+
+func drawOp08(t *rapid.T, th *theme08) *op08 {
+	o := &op08{Fn: th.fns[sim.Intn(t, len(th.fns), "fn")], O: th.opts[sim.Intn(t, len(th.opts), "opt")], A: sim.Intn(t, 16, "a")}
+	if sim.Intn(t, 4, "anyb") == 3 {
+		o.B = sim.Intn(t, 64, "b")
+	} else {
+		o.B = th.bs[sim.Intn(t, len(th.bs), "b")]
+	}
 	switch {
 	case o.Fn == "oj.Marshal(unencodable)":
 		o.Val = make(chan int)
-	case strings.Contains(o.Fn, "failing") || strings.Contains(o.Fn, "panicking") || strings.Contains(o.Fn, "reader error") || strings.Contains(o.Fn, "callback") || strings.Contains(o.Fn, "empty") || strings.Contains(o.Fn, "big"):
-	case strings.HasPrefix(o.Fn, "oj.JSON"), strings.HasPrefix(o.Fn, "oj.Marshal"), strings.HasPrefix(o.Fn, "oj.Write"), strings.HasPrefix(o.Fn, "sen.String"), o.Fn == "sen.Bytes", o.Fn == "sen.Write", strings.HasPrefix(o.Fn, "pretty."), o.Fn == "alt.Decompose":
+	case strings.Contains(o.Fn, "failing") || strings.Contains(o.Fn, "panicking") || strings.Contains(o.Fn, "reader error") || strings.Contains(o.Fn, "callback") || strings.Contains(o.Fn, "empty") || strings.Contains(o.Fn, "big") || strings.Contains(o.Fn, "invalid") || strings.Contains(o.Fn, "ints") || o.Fn == "alt.GenAlter(struct)" || o.Fn == "alt.Alter(struct)" || strings.Contains(o.Fn, "keeper"):
+	case strings.HasPrefix(o.Fn, "oj.JSON"), strings.HasPrefix(o.Fn, "oj.Marshal"), strings.HasPrefix(o.Fn, "oj.Write"), strings.HasPrefix(o.Fn, "sen.String"), o.Fn == "sen.Bytes", o.Fn == "sen.Write", strings.HasPrefix(o.Fn, "pretty."), o.Fn == "alt.Decompose", o.Fn == "alt.Generify(struct)":
 		// (pretty.WriteJSON included)
 		o.Val, o.Desc = drawVal08(t)
 		// package-level calls without options write maps in Go's map order: keep those order independent
-		if !strings.Contains(o.Fn, "opts") && !strings.HasPrefix(o.Fn, "pretty.") && o.Fn != "alt.Decompose" {
+		if !strings.Contains(o.Fn, "opts") && !strings.HasPrefix(o.Fn, "pretty.") && o.Fn != "alt.Decompose" && o.Fn != "alt.Generify(struct)" {
 			if _, ok := o.Val.(map[string]any); ok {
 				o.Val = []any{1, "two", map[string]any{"only": 3.5}}
 				o.Desc = " [1,two,{only:3.5}]"
@@ -229,19 +306,19 @@ func (o *op08) exec() (r ret08) {
 		s := oj.JSON(o.Val)
 		r.canon, r.retained = s, []any{s}
 	case "oj.JSON(opts)":
-		s := oj.JSON(o.Val, opts(o.A))
+		s := oj.JSON(o.Val, opts(o.O))
 		r.canon, r.retained = s, []any{s}
 	case "oj.Marshal":
 		text(oj.Marshal(o.Val))
 	case "oj.Marshal(opts)":
-		text(oj.Marshal(o.Val, opts(o.A)))
+		text(oj.Marshal(o.Val, opts(o.O)))
 	case "oj.Write":
 		sw := sim.NewSimWriter(-1)
 		err := oj.Write(sw, o.Val)
 		text(sw.Buf, err)
 	case "oj.Write(opts)":
 		sw := sim.NewSimWriter(-1)
-		op := *opts(o.A)
+		op := *opts(o.O)
 		op.WriteLimit = 1 + o.B
 		err := oj.Write(sw, o.Val, &op)
 		text(sw.Buf, err)
@@ -254,7 +331,7 @@ func (o *op08) exec() (r ret08) {
 		s := sen.String(o.Val)
 		r.canon, r.retained = s, []any{s}
 	case "sen.String(opts)":
-		s := sen.String(o.Val, opts(o.A))
+		s := sen.String(o.Val, opts(o.O))
 		r.canon, r.retained = s, []any{s}
 	case "sen.Bytes":
 		b := sen.Bytes(o.Val)
@@ -264,13 +341,13 @@ func (o *op08) exec() (r ret08) {
 		err := sen.Write(sw, o.Val)
 		text(sw.Buf, err)
 	case "pretty.JSON":
-		s := pretty.JSON(o.Val, float64(20+o.A*5)+0.3, o.B%2 == 0, opts(o.A))
+		s := pretty.JSON(o.Val, float64(20+o.A*5)+0.3, o.B%2 == 0, opts(o.O))
 		r.canon, r.retained = s, []any{s}
 	case "pretty.SEN":
-		s := pretty.SEN(o.Val, float64(20+o.A*5)+0.3, o.B%2 == 0, opts(o.A))
+		s := pretty.SEN(o.Val, float64(20+o.A*5)+0.3, o.B%2 == 0, opts(o.O))
 		r.canon, r.retained = s, []any{s}
 	case "alt.Decompose":
-		d := alt.Decompose(o.Val, opts(o.A))
+		d := alt.Decompose(o.Val, opts(o.O))
 		r.canon, r.retained = ref.Exact(d), []any{d}
 	case "alt.Generify":
 		g := alt.Generify(privateData(o.A))
@@ -362,7 +439,7 @@ func (o *op08) exec() (r ret08) {
 		r.canon = canonDocs(err != nil, []any{strings.Join(hits, ";")})
 	case "pretty.WriteJSON":
 		sw := sim.NewSimWriter(-1)
-		op := *opts(o.A)
+		op := *opts(o.O)
 		op.WriteLimit = 1 + o.B
 		err := pretty.WriteJSON(sw, o.Val, float64(20+o.A*5)+0.3, o.B%2 == 0, &op)
 		text(sw.Buf, err)
@@ -423,6 +500,34 @@ func (o *op08) exec() (r ret08) {
 	case "oj.Parse(empty)":
 		v, err := oj.Parse([]byte([]string{"", "  \n", "[1,"}[o.B%3]))
 		r.canon = canonDocs(err != nil, []any{v})
+	case "sen.Unmarshal(keeper)":
+		var k keeper
+		err := sen.Unmarshal([]byte(fmt.Sprintf(`{n:%d props:{owner:%d seq:%d deep:{a:[1 2]}}}`, o.A, o.A, o.B)), &k, c08Keeper)
+		r.canon = fmt.Sprint(err != nil, k.N) + ref.Exact(k.Props)
+		r.retained = []any{k.Props}
+	case "oj.Unmarshal(keeper)":
+		var k keeper
+		err := oj.Unmarshal([]byte(fmt.Sprintf(`{"n":%d,"props":{"owner":%d,"seq":%d,"deep":{"a":[1,2]}}}`, o.A, o.A, o.B)), &k, c08Keeper)
+		r.canon = fmt.Sprint(err != nil, k.N) + ref.Exact(k.Props)
+		r.retained = []any{k.Props}
+	case "alt.Generify(struct)":
+		g := alt.Generify(o.Val, opts(o.O))
+		r.canon = ref.Exact(nodeAny(g))
+	case "alt.GenAlter(struct)": // alters in place: a private value built here, never the shared o.Val
+		g := alt.GenAlter(freshMixed(o.A, o.B), opts(o.O))
+		r.canon = ref.Exact(nodeAny(g))
+	case "alt.Alter(struct)":
+		r.canon = ref.Exact(alt.Alter(freshMixed(o.A, o.B), opts(o.O)))
+	case "oj.Unmarshal(invalid)":
+		var out any
+		err := oj.Unmarshal([]byte([]string{`{"a":`, `[1,2`, `{"a":1}x`, `[1,2]`}[o.B%4]), &out)
+		r.canon = fmt.Sprint(err != nil) + ref.Exact(out)
+	case "sen.Unmarshal(invalid)":
+		var out any
+		err := sen.Unmarshal([]byte([]string{`{a:`, `[1 2`, `[1 2]`}[o.B%3]), &out)
+		r.canon = fmt.Sprint(err != nil) + ref.Exact(out)
+	case "oj.Parse(ints)":
+		val(oj.Parse([]byte(`{"id":9007199254740993,"n":3,"f":1.5}`)))
 	case "oj.JSON(big)": // larger than the pooled writers' default WriteLimit
 		s := oj.JSON([]any{strings.Repeat("x", 1100+o.A*20), o.B})
 		r.canon, r.retained = s, []any{s}
@@ -474,6 +579,12 @@ func (o *op08) exec() (r ret08) {
 	return
 }
 
+// freshMixed builds a new simple tree with struct members (for the in-place operations).
+func freshMixed(a, b int) any {
+	in := zInner{S: []string{"", "s", "x y"}[a%3], N: b % 3, F: []float64{0, 1.5}[b%2]}
+	return []any{in, map[string]any{"k": &zOuter{A: a % 4, In: in, L: []zInner{in}}}, 7, "s", []any{1, in}}
+}
+
 func exactSorted(vals []any) string {
 	ss := make([]string, len(vals))
 	for i, v := range vals {
@@ -489,6 +600,7 @@ func derefAllAny(v any) string { return fmt.Sprintf("%+v", v) }
 // registration only, no warm-up run: registering a type is documented to cover the struct types of its
 // members, which is the precondition for sharing the recomposer between goroutines.
 func warmUp() {
+	c08Shared()
 	resetDefaultRecomposer("")
 	_ = alt.DefaultRecomposer.RegisterComposer(&za.Node{}, nil)
 	_ = alt.DefaultRecomposer.RegisterComposer(&za.EmbedsDeep{}, nil)
@@ -609,9 +721,10 @@ func propC08(cx *sim.Ctx) {
 	t := cx.T
 	c08Fixtures()
 	c := &case08{}
+	th := drawTheme08(t)
 	n := 2 + sim.Intn(t, 4, "ntasks")
 	for i := 0; i < n; i++ {
-		ops := rapid.SliceOfN(rapid.Custom(drawOp08), 1, 5).Draw(t, "ops")
+		ops := rapid.SliceOfN(rapid.Custom(func(t *rapid.T) *op08 { return drawOp08(t, th) }), 1, 5).Draw(t, "ops")
 		c.Tasks = append(c.Tasks, ops)
 	}
 	var sres *sim.SchedResult
